@@ -13,6 +13,7 @@ implementation's observation.
 """
 import ast
 import os
+import subprocess
 from fractions import Fraction as Fr
 
 from harness.common import extract, fakeproc
@@ -38,6 +39,7 @@ ASSUMPTIONS = [
 ]
 
 FINDING_EINTR = "C15-eintr-deadline"
+FINDING_POPEN_NEG = "C15-popen-negative-cached"
 FUEL = 200                      # model loop bound = harness bound on sleeps per wait call
 
 # ------------------------------------------------------------------------------ translator
@@ -79,8 +81,12 @@ def _wait_pid_facts(tree):
             idx_check = i
             cmps = [x for x in ast.walk(st) if isinstance(x, ast.Compare) and len(x.ops) == 1
                     and "stop_at" in extract.unparse(x)]
-            if len(cmps) != 1:
-                raise NotRecognised("deadline comparison not found exactly once")
+            if len(cmps) != 1 or any(isinstance(x, ast.Call) and extract.dotted(x.func).split(".")[-1] in ("_sleep", "sleep")
+                                     for x in ast.walk(st)):
+                # e.g. a check that itself sleeps: the constants below are still extracted, the two
+                # facts about the check are skipped (correspondence alone covers them)
+                out["check_err"] = "deadline check of sleep() has an unknown shape: `%s`" % extract.unparse(st.test)
+                continue
             c = cmps[0]
             l, r = extract.unparse(c.left), extract.unparse(c.comparators[0])
             op = c.ops[0]
@@ -95,7 +101,7 @@ def _wait_pid_facts(tree):
                 elif isinstance(op, ast.Lt):
                     cmp_ge = False
             if cmp_ge is None:
-                raise NotRecognised("deadline comparison is %s" % extract.unparse(c))
+                out["check_err"] = "deadline comparison is %s" % extract.unparse(c)
         if isinstance(st, ast.Expr) and isinstance(st.value, ast.Call) and \
                 extract.dotted(st.value.func).split(".")[-1] in ("_sleep", "sleep"):
             idx_sleep = i
@@ -116,10 +122,94 @@ def _wait_pid_facts(tree):
                 raise NotRecognised("non-integer back-off factor %s" % fac)
             out["factor"] = int(fac)
             out["cap"] = _frac_of_const(b)
-    if idx_check is None or idx_sleep is None or "cap" not in out:
+    if idx_sleep is None or "cap" not in out:
         raise NotRecognised("shape of sleep() not recognised")
-    out["checkBeforeSleep"] = idx_check < idx_sleep
-    out["deadlineGe"] = cmp_ge
+    if idx_check is None and "check_err" not in out:
+        out["check_err"] = "no TimeoutExpired check found in sleep()"
+    if "check_err" not in out:
+        out["checkBeforeSleep"] = idx_check < idx_sleep
+        out["deadlineGe"] = cmp_ge
+    return out
+
+
+def _check_fact(d, key):
+    if "check_err" in d:
+        raise NotRecognised(d["check_err"])
+    return d[key]
+
+
+def _body(fn):
+    """statements of a function without its docstring"""
+    b = list(fn.body)
+    if b and isinstance(b[0], ast.Expr) and isinstance(getattr(b[0], "value", None), ast.Constant) \
+            and isinstance(b[0].value.value, str):
+        b = b[1:]
+    return b
+
+
+def _raises(st, exc):
+    return isinstance(st, ast.If) and not st.orelse and \
+        any(isinstance(x, ast.Raise) and exc in extract.unparse(x) for x in ast.walk(st))
+
+
+def _norm(node):
+    return extract.unparse(node).replace("(", "").replace(")", "").replace(" ", "")
+
+
+def _pid_check_fact(tree):
+    """wait_pid: the first statement is `if pid <= 0: raise ValueError`"""
+    b = _body(extract.find_def(tree, "wait_pid"))
+    if b and _raises(b[0], "ValueError"):
+        t = _norm(b[0].test)
+        if t in ("pid<=0", "0>=pid", "pid<1", "1>pid"):
+            return True
+        raise NotRecognised("first test of wait_pid is `%s`" % extract.unparse(b[0].test))
+    if any(_raises(st, "ValueError") and "pid" in extract.unparse(st.test) for st in b):
+        raise NotRecognised("a pid test exists in wait_pid but is not its first statement")
+    return False
+
+
+def _cb_check_fact(tree):
+    """wait_procs: `if callback is not None and not callable(callback): raise TypeError` before the first loop"""
+    fn = extract.find_def(tree, "wait_procs")
+    for st in _body(fn):
+        if isinstance(st, (ast.While, ast.For)):
+            break
+        if _raises(st, "TypeError"):
+            t = _norm(st.test)
+            if t == "callbackisnotNoneandnotcallablecallback":
+                return True
+            raise NotRecognised("callback test is `%s`" % extract.unparse(st.test))
+    if "callable" in extract.unparse(fn):
+        raise NotRecognised("a callable() test exists in wait_procs but not in front of the loops")
+    return False
+
+
+def _popen_facts(tree):
+    """Popen.wait: [validation?] ; if self.__subproc.returncode is not None: return it ;
+       ret = super().wait(timeout) ; self.__subproc.returncode = ret ; return ret"""
+    fn = extract.find_def(tree, "wait", cls="Popen")
+    b = _body(fn)
+    out = {"validateFirst": False, "rcFirst": False, "stores": False}
+    i = 0
+    if i < len(b) and _raises(b[i], "ValueError"):
+        if _norm(b[i].test) != "timeoutisnotNoneandnottimeout>=0":
+            raise NotRecognised("Popen.wait validation test is `%s`" % extract.unparse(b[i].test))
+        out["validateFirst"] = True
+        i += 1
+    if i < len(b) and isinstance(b[i], ast.If) and not b[i].orelse:
+        if _norm(b[i].test) != "self.__subproc.returncodeisnotNone" or len(b[i].body) != 1 or \
+                extract.unparse(b[i].body[0]) != "return self.__subproc.returncode":
+            raise NotRecognised("Popen.wait early return is `%s`" % extract.unparse(b[i]))
+        out["rcFirst"] = True
+        i += 1
+    rest = [extract.unparse(x) for x in b[i:]]
+    if rest == ["ret = super().wait(timeout)", "self.__subproc.returncode = ret", "return ret"]:
+        out["stores"] = True
+    elif rest in (["ret = super().wait(timeout)", "return ret"], ["return super().wait(timeout)"]):
+        out["stores"] = False
+    else:
+        raise NotRecognised("tail of Popen.wait is %r" % (rest,))
     return out
 
 
@@ -177,14 +267,30 @@ def facts(snap, F):
               "sleep(): `_min(interval * 2, 0.04)` (numerator)")
     F.try_add("capDen", "Nat", lambda: extract.lean_nat(wp()["cap"].denominator),
               "sleep(): `_min(interval * 2, 0.04)` (denominator)")
-    F.try_add("checkBeforeSleep", "Bool", lambda: extract.lean_bool(wp()["checkBeforeSleep"]),
+    F.try_add("checkBeforeSleep", "Bool", lambda: extract.lean_bool(_check_fact(wp(), "checkBeforeSleep")),
               "sleep(): the TimeoutExpired check precedes `_sleep(interval)`")
-    F.try_add("deadlineGe", "Bool", lambda: extract.lean_bool(wp()["deadlineGe"]),
+    F.try_add("deadlineGe", "Bool", lambda: extract.lean_bool(_check_fact(wp(), "deadlineGe")),
               "sleep(): the check is `_timer() >= stop_at` (true) or `>` (false)")
     F.try_add("validateNonNeg", "Bool", lambda: extract.lean_bool(_validate_fact(init)),
               "Process.wait starts with `if timeout is not None and not timeout >= 0: raise ValueError`")
     F.try_add("sliceNum", "Nat", lambda: extract.lean_nat(_slice_fact(init)),
               "wait_procs: `max_timeout = 1.0 / len(alive)`")
+
+    def pp():
+        if "pp" not in d:
+            d["pp"] = _popen_facts(init)
+        return d["pp"]
+
+    F.try_add("pidCheck", "Bool", lambda: extract.lean_bool(_pid_check_fact(posix)),
+              "wait_pid starts with `if pid <= 0: raise ValueError`")
+    F.try_add("cbCheck", "Bool", lambda: extract.lean_bool(_cb_check_fact(init)),
+              "wait_procs: `if callback is not None and not callable(callback): raise TypeError` in front of the loops")
+    F.try_add("popenRcFirst", "Bool", lambda: extract.lean_bool(pp()["rcFirst"]),
+              "Popen.wait: `if self.__subproc.returncode is not None: return self.__subproc.returncode` comes first")
+    F.try_add("popenStoresRc", "Bool", lambda: extract.lean_bool(pp()["stores"]),
+              "Popen.wait: `ret = super().wait(timeout); self.__subproc.returncode = ret; return ret`")
+    F.try_add("popenValidateFirst", "Bool", lambda: extract.lean_bool(pp()["validateFirst"]),
+              "Popen.wait rejects a negative timeout (`timeout is not None and not timeout >= 0`) before looking at returncode")
 
 
 # ------------------------------------------------------------------------------ simulated kernel
@@ -196,6 +302,11 @@ class Diverge(BaseException):
     def __init__(self, kind):
         BaseException.__init__(self, kind)
         self.kind = kind
+
+
+def real_pid(pid):
+    """cases name the calling process symbolically (its PID differs from run to run)"""
+    return os.getpid() if pid == "self" else pid
 
 
 def to_frac(x):
@@ -352,6 +463,19 @@ class Impl:
         px.time = _ModProxy(px.time, monotonic=w.timer, time=w.timer, sleep=w.sleep)
         ps._timer = w.timer
         world = w
+        # psutil.Popen.__init__ runs for real; only `subprocess.Popen` (CPython's, not psutil's) is a stub
+        # that spawns nothing: .pid is the simulated PID, .returncode starts as None
+        impl = self
+        self.next_popen_pid = None
+
+        class StubSubprocessPopen:
+            def __init__(self, *a, **k):
+                self.pid = impl.next_popen_pid
+                self.returncode = None
+                self.args = a[0] if a else None
+                self.stdin = self.stdout = self.stderr = None
+        self.saved.append((ps, "subprocess", ps.subprocess))
+        ps.subprocess = _ModProxy(subprocess, Popen=StubSubprocessPopen)
 
         class VProcess(ps.Process):
             def wait(self, timeout=None):
@@ -435,10 +559,11 @@ class Impl:
         first_at = Fr(*case["calls"][0]["at"])
         self.new_world(first_at)
         w = self.world
-        pid = case["pid"]
+        pid = real_pid(case["pid"])
         self.ensure_proc(pid)
         try:
-            proc = self.VProcess(pid)
+            # "self": Process() without a pid = the calling process
+            proc = self.VProcess() if case["pid"] == "self" else self.VProcess(pid)
         except BaseException as e:  # noqa: BLE001
             return [{"out": {"kind": "exc", "exc": "ctor:" + type(e).__name__}, "start": jrat(w.now),
                      "ret": jrat(w.now), "sleeps": [], "nwait": 0, "oscalls": 0, "last_eintr": False}]
@@ -459,6 +584,61 @@ class Impl:
             obs.append({"out": out, "start": jrat(t_start), "ret": jrat(w.now), "sleeps": [jrat(s) for s in w.sleeps],
                         "nwait": w.procs[pid]["nwait"] - n0, "oscalls": w.oscalls,
                         "last_eintr": w.last_wait_eintr})
+            if out["kind"] in ("hang", "fuel"):
+                break
+        return obs
+
+    def run_popen(self, case):
+        """a sequence of `psutil.Popen.wait(timeout)` calls on one object; before a call marked `ext`
+        subprocess's own poll() runs (reaps the child and stores returncode, as CPython does)"""
+        first_at = Fr(*case["calls"][0]["at"])
+        self.new_world(first_at)
+        w = self.world
+        pid = case["pid"]
+        self.ensure_proc(pid)
+        self.next_popen_pid = pid
+        try:
+            q = self.ps.Popen(["vproc"])
+            stub = object.__getattribute__(q, "_Popen__subproc")
+        except BaseException as e:  # noqa: BLE001
+            return [{"out": {"kind": "exc", "exc": "ctor:" + type(e).__name__}, "start": jrat(w.now),
+                     "ret": jrat(w.now), "sleeps": [], "nwait": 0, "oscalls": 0, "last_eintr": False,
+                     "rc": None, "ext": None, "stored_before": None}]
+        w.add(pid, case["env"])
+        w.reset_logs()
+        w.sync_procfs()
+        obs = []
+        for c in case["calls"]:
+            at = Fr(*c["at"])
+            if at > w.now:
+                w.now = at
+                w.sync_procfs()
+            ext = None
+            if c.get("ext"):
+                p = w.procs[pid]
+                st = p["status"]
+                if p["kind"] == "child" and not p["reaped"] and w.ended(p) and World.terminal(st) \
+                        and stub.returncode is None:
+                    # subprocess.Popen.poll(): waitpid(pid, WNOHANG) -> _handle_exitstatus
+                    ext = os.WEXITSTATUS(st) if os.WIFEXITED(st) else -os.WTERMSIG(st)
+                    stub.returncode = ext
+                    p["reaped"] = True
+                    w.sync_procfs()
+            w.reset_logs()
+            n0 = w.procs[pid]["nwait"]
+            t_start = w.now
+            before = stub.returncode
+            tmo = None if c["timeout"] is None else Fr(*c["timeout"])
+            out = self.outcome(lambda: q.wait(tmo))
+            rc = stub.returncode
+            if rc is None or (isinstance(rc, int) and not isinstance(rc, bool)):
+                rcj = {"v": None if rc is None else int(rc)}
+            else:
+                rcj = {"bad": repr(rc)}
+            obs.append({"out": out, "start": jrat(t_start), "ret": jrat(w.now), "sleeps": [jrat(s) for s in w.sleeps],
+                        "nwait": w.procs[pid]["nwait"] - n0, "oscalls": w.oscalls,
+                        "last_eintr": w.last_wait_eintr, "rc": rcj, "ext": ext,
+                        "stored_before": None if before is None else int(before)})
             if out["kind"] in ("hang", "fuel"):
                 break
         return obs
@@ -499,6 +679,8 @@ class Impl:
         w.max_sleeps = FUEL * 8          # a whole wait_procs call may sleep more than one wait call
         cblog = []
         cb = (lambda pr: cblog.append(pr.pid)) if case["hasCb"] else None
+        if case.get("cb") == "bad":
+            cb = 42                     # neither None nor callable
         tmo = None if case["timeout"] is None else Fr(*case["timeout"])
         res = {}
 
@@ -507,7 +689,7 @@ class Impl:
         out = self.outcome(call)
         flat = [pid for pid, _ in w.calls]
         if out["kind"] != "none":
-            return {"kind": "raised", "out": out, "flat": flat}
+            return {"kind": "raised", "out": out, "flat": flat, "oscalls": w.oscalls, "ret": jrat(w.now)}
         gone, alive = res["r"]
         rep = {}
         for o in list(gone) + list(alive):
@@ -586,6 +768,13 @@ def gen_instant(rng, start, deadline):
         return None, "never"
     if r < 0.16:
         return start - rng.choice([Fr(0), Fr(1, 1000), Fr(5)]), "already"
+    if r < 0.30 and deadline is not None and deadline > start:
+        # strictly between the last poll made before the deadline and the deadline: the final
+        # (up to 40 ms) slice, which only the poll made AFTER sleeping past the deadline can see
+        k = max(i for i, t in enumerate(POLLS) if start + t < deadline) if start + POLLS[-1] >= deadline else None
+        lo = start + POLLS[k] if k is not None else deadline - CAP
+        t = lo + (deadline - lo) * Fr(rng.randrange(1, 1000), 1000)
+        return t, "last-slice"
     if r < 0.55 or deadline is None:
         k = rng.randrange(0, 16 if rng.random() < 0.8 else 40)
         t, how = near(rng, start + POLLS[k])
@@ -675,6 +864,17 @@ def gen_pwait_case(rng):
         # the validation clause is Process.wait's (wait_pid itself is only ever called with timeout >= 0)
         c["timeout"] = jrat(-rng.choice([Fr(1, 1000), Fr(1), Fr(5, 2)]))
         c["fam"]["timeout"] = "negative"
+    r0 = rng.random()
+    if r0 < 0.04:
+        # Process().wait(): the calling process waiting for itself
+        c["pid"] = "self"
+        c["env"] = jenv("nonchild", 0, None, c["env"]["eintr"] if not c["env"].get("eintrTail") else "always")
+        c["fam"] = dict(c["fam"], kind="self", place="never", status="-")
+        if c["timeout"] is not None and Fr(*c["timeout"]) > 3:
+            c["timeout"] = jrat(Fr(1, 2))
+    elif r0 < 0.07:
+        c["pid"] = 0
+        c["fam"] = dict(c["fam"], kind="pid0")
     calls = [{"timeout": c["timeout"], "at": jrat(start)}]
     t = start
     for _ in range(rng.randrange(1, 4)):
@@ -692,6 +892,41 @@ def gen_pwait_case(rng):
     # every call starts no earlier than the previous one could have ended: the harness moves the
     # clock forward only, and tells the driver the instant each call really started
     return {"op": "pwait", "env": c["env"], "pid": c["pid"], "fuel": FUEL, "calls": calls, "fam": c["fam"]}
+
+
+def gen_popen_case(rng):
+    """calls of psutil.Popen.wait on one object; `ext` = subprocess's own poll() runs just before the call"""
+    c = gen_wait_case(rng)
+    while c["pid"] == 0:
+        c = gen_wait_case(rng)
+    start = Fr(*c["start"])
+    if rng.random() < 0.7 and c["env"]["kind"] != "child":
+        # a Popen is a child unless somebody else reaped it
+        st, sfam = gen_status(rng)
+        c["env"] = dict(c["env"], kind="child", status=st)
+        if c["env"]["exitAt"] is None and rng.random() < 0.7:
+            c["env"]["exitAt"] = jrat(start + Fr(rng.randrange(0, 2000), 10000))
+        c["fam"] = dict(c["fam"], kind="child", status=sfam)
+    calls = [{"timeout": c["timeout"], "at": jrat(start)}]
+    if rng.random() < 0.15:
+        calls[0]["ext"] = True
+    t = start
+    for _ in range(rng.randrange(1, 4)):
+        t = t + rng.choice([Fr(0), Fr(1, 1000), Fr(1, 2), Fr(3), Fr(40)])
+        r = rng.random()
+        if r < 0.15:
+            tm = None
+        elif r < 0.35:
+            tm = Fr(0)
+        elif r < 0.55:
+            tm = -rng.choice([Fr(1, 1000), Fr(1), Fr(2)])
+        else:
+            tm = gen_timeout(rng)[0]
+        call = {"timeout": None if tm is None else jrat(tm), "at": jrat(t)}
+        if rng.random() < 0.25:
+            call["ext"] = True
+        calls.append(call)
+    return {"op": "popen", "env": c["env"], "pid": c["pid"], "fuel": FUEL, "calls": calls, "fam": c["fam"]}
 
 
 def gen_wprocs_case(rng):
@@ -752,10 +987,16 @@ def gen_wprocs_case(rng):
             if p["pid"] == lst[-1][0]:
                 p.pop("prewait", None)
     rng.shuffle(lst)
-    return {"op": "wprocs", "procs": procs, "list": lst,
+    case = {"op": "wprocs", "procs": procs, "list": lst,
             "timeout": None if timeout is None else jrat(timeout), "start": jrat(start),
             "hasCb": rng.random() < 0.75, "fuel": FUEL,
             "fam": {"timeout": tfam, "n": n}}
+    if rng.random() < 0.06:
+        # callback that is neither None nor callable (a negative timeout is still reported first)
+        case["hasCb"] = True
+        case["cb"] = "bad"
+        case["fam"]["cb"] = "bad"
+    return case
 
 
 CORPUS = [
@@ -771,6 +1012,28 @@ CORPUS = [
     # never existed
     {"op": "wait", "env": jenv("never", 0, None, []), "pid": 4004, "timeout": None,
      "start": [0, 1], "fuel": FUEL, "fam": {"timeout": "none", "kind": "never", "status": "-", "place": "never-existed", "eintr": "none"}},
+    # Lean `ex_late`: exit(1) at 0.2 ms, strictly between the last poll before the deadline (0.1 ms) and the
+    # deadline (0.25 ms): the poll made after sleeping past the deadline (0.3 ms) must return 1
+    {"op": "wait", "env": jenv("child", 1 << 8, Fr(1, 5000), []), "pid": 4005, "timeout": jrat(Fr(1, 4000)),
+     "start": [0, 1], "fuel": FUEL, "fam": {"timeout": "corpus", "kind": "child", "status": "exit", "place": "last-slice", "eintr": "none"}},
+    # the same in the capped regime: timeout 1 s, exit 10 ms before the deadline
+    {"op": "wait", "env": jenv("nonchild", 0, Fr(99, 100), []), "pid": 4006, "timeout": [1, 1],
+     "start": [0, 1], "fuel": FUEL, "fam": {"timeout": "corpus", "kind": "nonchild", "status": "-", "place": "last-slice", "eintr": "none"}},
+    # witness of C15-popen-negative-cached: returncode 0 stored by the first wait, then wait(-1)
+    {"op": "popen", "env": jenv("child", 0, Fr(0), []), "pid": 4007, "fuel": FUEL,
+     "calls": [{"timeout": [0, 1], "at": [1, 1]}, {"timeout": [-1, 1], "at": [2, 1]}],
+     "fam": {"timeout": "zero", "kind": "child", "status": "exit", "place": "already", "eintr": "none"}},
+    # the calling process waiting for itself
+    {"op": "pwait", "env": jenv("nonchild", 0, None, []), "pid": "self", "fuel": FUEL,
+     "calls": [{"timeout": [3, 10000], "at": [0, 1]}, {"timeout": [0, 1], "at": [1, 1]}],
+     "fam": {"timeout": "tiny", "kind": "self", "status": "-", "place": "never", "eintr": "none"}},
+    # Process(0).wait()
+    {"op": "pwait", "env": jenv("nonchild", 0, None, []), "pid": 0, "fuel": FUEL,
+     "calls": [{"timeout": None, "at": [0, 1]}, {"timeout": [1, 100], "at": [1, 1]}, {"timeout": [-1, 1], "at": [1, 1]}],
+     "fam": {"timeout": "none", "kind": "pid0", "status": "-", "place": "never", "eintr": "none"}},
+    # wait_procs with a callback that is not callable
+    {"op": "wprocs", "procs": [{"pid": 4001, "env": jenv("child", 0, Fr(0), [])}], "list": [[4001, 0]],
+     "timeout": [1, 10], "start": [0, 1], "hasCb": True, "cb": "bad", "fuel": FUEL, "fam": {"timeout": "round", "n": 1, "cb": "bad"}},
 ]
 
 
@@ -840,6 +1103,8 @@ def wprocs_line(case, ob):
     line = {"op": "wprocs", "procs": case["procs"], "list": [pid for pid, _ in case["list"]],
             "timeout": case["timeout"], "start": case["start"], "hasCb": case["hasCb"],
             "flat": ob.get("flat", []), "fuel": case["fuel"]}
+    if case.get("cb"):
+        line["cb"] = case["cb"]
     if ob["kind"] == "ok":
         line["obs"] = {"gone": ob["gone"], "alive": ob["alive"], "returncodes": ob["returncodes"],
                        "cbLog": ob["cbLog"], "ret": ob["ret"]}
@@ -862,9 +1127,24 @@ def evaluate(ctx, impl, cases, res, source="generated"):
             line = strip(case)
             if representable(ob["out"]):
                 line["obs"] = obs_line(ob)
+        elif case["op"] == "popen":
+            ob = impl.run_popen(case)
+            line = strip(case)
+            calls = []
+            for i, c in enumerate(case["calls"][:len(ob)]):
+                c = {"timeout": c["timeout"], "at": ob[i]["start"]}
+                if ob[i]["ext"] is not None:
+                    c["ext"] = ob[i]["ext"]
+                if representable(ob[i]["out"]) and ob[i]["rc"] is not None and "v" in ob[i]["rc"]:
+                    c["obs"] = obs_line(ob[i])
+                    c["oscalls"] = ob[i]["oscalls"]
+                    c["rc"] = ob[i]["rc"]
+                calls.append(c)
+            line["calls"] = calls
         elif case["op"] == "pwait":
             ob = impl.run_pwait(case)
             line = strip(case)
+            line["pid"] = real_pid(case["pid"])
             calls = []
             for i, c in enumerate(case["calls"][:len(ob)]):
                 c = dict(c, at=ob[i]["start"])      # the instant the call really started
@@ -888,6 +1168,12 @@ def evaluate(ctx, impl, cases, res, source="generated"):
         m, sp = ans["model"], ans["spec"]
         if case["op"] == "wait":
             found += judge_single(res, inp, case["env"], case["timeout"], ob, m, sp)
+        elif case["op"] == "popen":
+            for i, o in enumerate(ob):
+                n = judge_popen(res, dict(inp, call=i), case["env"], case["calls"][i]["timeout"], o, m[i], sp[i])
+                found += n
+                if n or o["out"]["kind"] in ("hang", "fuel"):
+                    break
         elif case["op"] == "pwait":
             for i, o in enumerate(ob):
                 n = judge_single(res, dict(inp, call=i), case["env"], case["calls"][i]["timeout"], o, m[i], sp[i])
@@ -924,9 +1210,49 @@ def judge_single(res, inp, env, timeout, ob, m, sp):
     return 0
 
 
+def judge_popen(res, inp, env, timeout, ob, m, sp):
+    """one Popen.wait call: as judge_single, plus subprocess.Popen.returncode after the call"""
+    if not representable(ob["out"]) or ob["rc"] is None or "v" not in ob["rc"]:
+        res.disagree("spec", inp, ob, m, sp, note="Popen.wait raised/returned/stored something the property does not allow: %r / returncode %r" % (ob["out"], ob["rc"]))
+        return 1
+    neg = timeout is not None and Fr(*timeout) < 0
+    in_region = neg and ob["stored_before"] is not None
+    iv = sp["impl_violations"]
+    if iv:
+        fid = FINDING_POPEN_NEG if (iv == ["negativeIsValueError"] and in_region and ob["out"] == {"kind": "code", "v": ob["stored_before"]}) else None
+        if fid is None and iv == ["timeoutSound"] and in_eintr_region(env, timeout, ob):
+            fid = FINDING_EINTR
+        if fid:
+            res.known_seen[fid] = res.known_seen.get(fid, 0) + 1
+        res.disagree("spec", inp, ob, m, sp, note="implementation violates Spec clauses %s" % iv, finding=fid)
+        if not fid:
+            return 1
+    mv = sp["model_violations"]
+    if mv and not (mv == ["timeoutSound"] and has_eintr(env)) and not (mv == ["negativeIsValueError"] and in_region):
+        res.disagree("model", inp, ob, m, sp, note="the MODEL violates Spec clauses %s" % mv)
+        return 1
+    if not same_single(ob, m) or ob["rc"] != m["rc"]:
+        res.disagree("model", inp, ob, m, sp, note="implementation and model observations differ (Spec clauses hold)")
+        return 1
+    return 0
+
+
 def judge_wprocs(res, inp, ob, m, sp):
     if ob["kind"] == "exc":
         res.disagree("model", inp, ob, m, sp, note="could not build the Process objects")
+        return 1
+    refusal = (sp or {}).get("refusal")
+    if refusal is not None:
+        # the arguments must be refused with exactly this exception, before anything else happens
+        want = {"kind": "exc", "exc": refusal}
+        if ob["kind"] == "raised" and ob["out"] == want and not ob["flat"] and ob.get("oscalls", 0) == 0 \
+                and ob.get("ret") == inp["case"]["start"]:
+            if m.get("kind") == "raised" and m["out"] == want:
+                return 0
+            res.disagree("model", inp, ob, m, sp, note="the model does not refuse these arguments with %s" % refusal)
+            return 1
+        res.disagree("spec", inp, ob, m, sp, note="wait_procs must refuse these arguments with %s before doing anything; it %s"
+                     % (refusal, "raised %r after %d OS calls" % (ob["out"], ob.get("oscalls", 0)) if ob["kind"] == "raised" else "returned"))
         return 1
     if ob["kind"] == "raised":
         k = ob["out"]["kind"]
@@ -1072,11 +1398,30 @@ def features(case, ob):
             f.append("wprocs:passes~%d" % min(9, len(ob["calls"]) // max(1, case["fam"]["n"])))
             if any(t for _, t in case["list"]) or len(case["list"]) != case["fam"]["n"]:
                 f.append("wprocs:duplicates")
+            clean_alive = [p for p in case["procs"] if p["pid"] in ob["alive"] and not has_eintr(p["env"])]
+            if clean_alive:
+                f.append("wprocs:alive-running clause evaluated on >=1 process")
         else:
             f.append("wprocs:" + ob.get("kind", "?") + ":" + str(ob.get("out", {}).get("kind")))
+            if ob.get("out", {}).get("exc") == "TypeError":
+                f.append("wprocs:refused TypeError (callback not callable)")
+        if case.get("cb") == "bad":
+            f.append("wprocs:cb=bad")
         return f
     fam = case["fam"]
     obs = [ob] if case["op"] == "wait" else ob
+    if case["op"] == "popen":
+        for o in obs:
+            if o.get("ext") is not None:
+                f.append("popen:returncode stored by subprocess's own poll()")
+            if o.get("stored_before") is not None:
+                f.append("popen:wait with returncode already stored")
+                if o["out"].get("kind") == "code" and not o["sleeps"] and o["oscalls"] == 0:
+                    f.append("popen:cached answer, no OS call")
+            elif o["out"].get("kind") == "code":
+                f.append("popen:wait stored a returncode")
+            elif o["out"].get("kind") == "none":
+                f.append("popen:wait returned None (returncode stays unset)")
     f.append(case["op"] + ":kind=" + fam["kind"])
     f.append(case["op"] + ":timeout=" + fam["timeout"])
     f.append(case["op"] + ":place=" + fam["place"])
@@ -1095,7 +1440,7 @@ def nontrivial(case, ob):
         return ob.get("kind") == "ok" and (len(ob["calls"]) > 1 or bool(ob["sleeps"]))
     obs = [ob] if case["op"] == "wait" else ob
     return any(o["sleeps"] or o["out"]["kind"] == "timeout" for o in obs) or has_eintr(case["env"]) \
-        or len(obs) > 1
+        or len(obs) > 1 or case["pid"] in (0, "self")
 
 
 def correspond(ctx, res, sweep=True):
@@ -1103,18 +1448,22 @@ def correspond(ctx, res, sweep=True):
     try:
         res.rule = ("environments (kind, status word, exit instant, EINTR pattern, timeout, start) from clause-directed "
                     "families: exit instants exactly at / just before / just after every polling instant, the deadline "
-                    "and the one-poll-late window; three entry points (wait_pid, Process.wait call sequences, wait_procs "
-                    "with 1-5 processes); non-trivial = the call slept, timed out, was interrupted, was repeated on the "
-                    "same object, or (wait_procs) made more than one wait call; distinct = distinct canonical cases; "
-                    "plus all 65 536 status words")
+                    "and the one-poll-late window, and strictly inside the last slice before the deadline; four entry "
+                    "points (wait_pid, Process.wait call sequences incl. Process() = the caller itself and Process(0), "
+                    "psutil.Popen.wait call sequences with subprocess's own poll() interleaved, wait_procs with 1-5 "
+                    "processes incl. a non-callable callback); non-trivial = the call slept, timed out, was interrupted, "
+                    "was repeated on the same object, addressed PID 0 / the caller, or (wait_procs) made more than one "
+                    "wait call; distinct = distinct canonical cases; plus all 65 536 status words")
         n = ctx.n(5000, 150000)
         cases = list(CORPUS)
         for i in range(n):
             r = i % 10
-            if r < 4:
+            if r < 3:
                 cases.append(gen_wait_case(ctx.rng))
-            elif r < 7:
+            elif r < 6:
                 cases.append(gen_pwait_case(ctx.rng))
+            elif r < 7:
+                cases.append(gen_popen_case(ctx.rng))
             else:
                 cases.append(gen_wprocs_case(ctx.rng))
         # run + judge, measuring the distribution on the implementation's observations
@@ -1136,7 +1485,7 @@ def correspond(ctx, res, sweep=True):
 def evaluate_and_count(ctx, impl, cases, res, source):
     """evaluate() plus distribution / non-triviality accounting (re-observes nothing: the observation
     made for the comparison is the one counted)."""
-    orig_run = (impl.run_wait, impl.run_pwait, impl.run_wprocs)
+    orig_run = (impl.run_wait, impl.run_pwait, impl.run_wprocs, impl.run_popen)
     seen = []
 
     def wrap(fn):
@@ -1145,11 +1494,11 @@ def evaluate_and_count(ctx, impl, cases, res, source):
             seen.append((case, ob))
             return ob
         return g
-    impl.run_wait, impl.run_pwait, impl.run_wprocs = (wrap(f) for f in orig_run)
+    impl.run_wait, impl.run_pwait, impl.run_wprocs, impl.run_popen = (wrap(f) for f in orig_run)
     try:
         evaluate(ctx, impl, cases, res, source)
     finally:
-        impl.run_wait, impl.run_pwait, impl.run_wprocs = orig_run
+        impl.run_wait, impl.run_pwait, impl.run_wprocs, impl.run_popen = orig_run
     for k, (case, ob) in enumerate(seen):
         for f in features(case, ob):
             res.count(f)
@@ -1192,10 +1541,10 @@ def _candidates(case):
     fam = {"timeout": "?", "kind": "?", "status": "?", "place": "?", "eintr": "?", "n": 0}
     best = dict(case, fam=fam)
     cands = []
-    if case["op"] in ("wait", "pwait"):
+    if case["op"] in ("wait", "pwait", "popen"):
         if has_eintr(case["env"]):
             cands.append(dict(best, env=dict(case["env"], eintr=[], eintrTail=False)))
-        if case["op"] == "pwait":
+        if case["op"] in ("pwait", "popen"):
             for k in range(1, len(case["calls"])):
                 cands.append(dict(best, calls=case["calls"][:k]))
             if len(case["calls"]) > 2:
@@ -1272,6 +1621,16 @@ def replay(ctx, rp, res):
 
 
 def check_finding(ctx, fnd):
+    if fnd.get("id") == FINDING_POPEN_NEG:
+        impl = Impl(ctx)
+        try:
+            r = _Res()
+            evaluate(ctx, impl, [dict(fnd["witness"]["case"], fam={})], r, "finding")
+            if any(d.get("finding") == FINDING_POPEN_NEG for d in r.disagreements):
+                return "reproduces"
+            return "gone"
+        finally:
+            impl.close()
     if fnd.get("id") != FINDING_EINTR:
         return "unknown"
     impl = Impl(ctx)
